@@ -295,3 +295,14 @@ Proof.
     + destruct (save_new_attributed T _ (Some run) _ _ _ _ _ G A E) as [G1 A1].
       eapply IH; eauto.
 Qed.
+
+(* the dask flow = the metadata run in a temporary directory, then the runs *)
+Lemma flow_dask_cases : forall T req n fs fs' rep e,
+  flow_dask T req n fs = (fs', rep, e) ->
+  (fs' = fs /\ rep = [] /\ e <> None) \/ flow_dask_from T req n 0 fs [] = (fs', rep, e).
+Proof.
+  intros T req n fs fs' rep e H. unfold flow_dask in H.
+  destruct (save_new T (items req) None 0 [] []) as [[a b] [e0|]].
+  - left. injection H as <- <- <-. repeat split; congruence.
+  - right. exact H.
+Qed.
